@@ -163,11 +163,12 @@ func runProp(id, tier, repo, verif, evidence, archOverride string) (code int) {
 					r.Undecide("checker panic: %v\n%s", x, debug.Stack())
 				}
 			}()
-			p, err := loadProgram(repo, arch)
+			p, err := loadShared(repo, arch)
 			if err != nil {
 				r.Undecide("%v", err)
 				return
 			}
+			p.Unresolved = nil
 			pr.Run(p, r)
 			for _, n := range p.RenameNotes {
 				r.Note("%s", n)
@@ -183,6 +184,29 @@ func runProp(id, tier, repo, verif, evidence, archOverride string) (code int) {
 	}
 	cmdline := fmt.Sprintf("wscheck -repo %s -prop %s -tier %s", repo, id, tier)
 	return finishRun(id, tier, seed, reps, verif, evidence, time.Since(start).Seconds(), pr.Info, cmdline)
+}
+
+// loadShared: with WSCHECK_SHARE=1 (development aid for the sensitivity matrices, which run all 20 properties on one
+// variant tree) the loaded program is reused between the properties of one process; the registered commands run one
+// property per process and always load afresh.
+var sharedProg = map[string]*Program{}
+
+func loadShared(repo, arch string) (*Program, error) {
+	if os.Getenv("WSCHECK_SHARE") != "1" {
+		return loadProgram(repo, arch)
+	}
+	if len(sharedProg) > 0 {
+		if p, ok := sharedProg[repo+"|"+arch]; ok {
+			curProg = p
+			return p, nil
+		}
+		return loadProgram(repo, arch) // the alias tables are global: only one program is shared per process
+	}
+	p, err := loadProgram(repo, arch)
+	if err == nil {
+		sharedProg[repo+"|"+arch] = p
+	}
+	return p, err
 }
 
 func debugPaths(p *Program, name, inline string) {
